@@ -1,4 +1,4 @@
-// bbssoak: long soak runs behind finding C17-F2 (not part of the registered checks).
+// bbssoak: long soak runs behind finding C17-F5 (not part of the registered checks).
 //   bbssoak loop <total> <messages> <workers>   derive + verify honest BBS+ proofs over and over; prints every rejected one
 //   bbssoak <derived.json> <keys.txt>           verify a derived credential dumped by the C17 driver (VERIF_TRACE=1)
 package main
